@@ -4,7 +4,7 @@ State machine of the palettes and caches that sit between a colours configuratio
 (C10): `/repo/ak/color.py` `ColorsConfig` (`syntax_map`, `registered_sources`, `_cache`,
 `add_new_items`, `get_color`), `_PaletteMeta.__call__`, `Palette._get_existing_palette /
 _prepare_local_colors / _store_palette_in_cache / register_in_colors_conf`, the per-class
-`_PALETTE_NO_COLOR`, `CompoundPalette._sub_palettes`, `_GLOBAL_COLORS_CONF` / `_GSYNCED_PALETTES`
+`_PALETTE_NO_COLOR`, `CompoundPalette._sub_palettes` / `SUB_PALETTES_MAP`, `_GLOBAL_COLORS_CONF` / `_GSYNCED_PALETTES`
 (`global_palette`), `PaletteUser._mk_palette`, and `/repo/ak/ppobj.py` `PPEnumFieldType._cache`.
 
 Identity matters here (a palette object is a cache key, and a freed address can be handed out
@@ -137,7 +137,15 @@ structure ClassInfo where
   parents : List ClassId
   defaults : Option SMap
   localSyntax : List SyntId
+  /-- `SUB_PALETTES_MAP` of a compound palette class: requested palette class ↦ the class used instead -/
+  subMap : List (ClassId × ClassId)
   deriving Repr
+
+/-- `self.SUB_PALETTES_MAP.get(palette_class, palette_class)` -/
+def ClassInfo.actual (ci : ClassInfo) (c : ClassId) : ClassId :=
+  match ci.subMap.lookup c with
+  | some a => a
+  | none => c
 
 structure Cfg where
   dfltId : SyntId
@@ -226,6 +234,12 @@ def getConf (s : State) (k : ConfId) : Except Err Conf :=
   | some c => .ok c
   | none => .error .keyError
 
+/-- the class of the sub-palette a compound palette of class `top` makes when it is asked for class `c` -/
+def subCls (cfg : Cfg) (top c : ClassId) : ClassId :=
+  match cfg.classes[top]? with
+  | some ci => ci.actual c
+  | none => c
+
 def getClass (cfg : Cfg) (cls : ClassId) : Except Err ClassInfo :=
   match cfg.classes[cls]? with
   | some ci => .ok ci
@@ -298,7 +312,9 @@ def mkPalette (cfg : Cfg) (alloc : Alloc) (cls : ClassId) (k : ConfId) (nc : Boo
 /-- `self._sub_palettes[(cls, None)] = palette` -/
 def memoSub (s : State) (p : Addr) (c : ClassId) (b : Addr) : State := { s with subs := ((p, c), b) :: s.subs }
 
-/-- `CompoundPalette.get_sub_palette(palette_class)` (`SUB_PALETTES_MAP` is empty in the package) -/
+/-- `CompoundPalette.get_sub_palette(palette_class)`: memoised under the *requested* class; the palette made
+is of the class `SUB_PALETTES_MAP` substitutes (empty in the package, non-empty in customised palette classes),
+from the compound palette's own configuration and with its own `no_color` -/
 def getSub (cfg : Cfg) (alloc : Alloc) (p : Addr) (c : ClassId) (s : State) : Except Err (State × Addr) := do
   let pp ← getPal s p
   let ci ← getClass cfg pp.cls
@@ -306,7 +322,7 @@ def getSub (cfg : Cfg) (alloc : Alloc) (p : Addr) (c : ClassId) (s : State) : Ex
   match s.subs.lookup (p, c) with
   | some b => .ok (s, b)
   | none =>
-    let (s1, b) ← mkPalette cfg alloc c pp.conf pp.noColor s
+    let (s1, b) ← mkPalette cfg alloc (ci.actual c) pp.conf pp.noColor s
     .ok (memoSub s1 p c b, b)
 
 def getSubs (cfg : Cfg) (alloc : Alloc) (p : Addr) : List ClassId → State → Except Err State
